@@ -18,7 +18,10 @@ static SERVER_FULL_ERROR_MESSAGE: &[u8] = b"HTTP/1.1 503\r\n\
                                             Server: Firecracker API\r\n\
                                             Connection: close\r\n\
                                             Content-Length: 40\r\n\r\n{ \"error\": \"Too many open connections\" }";
+#[cfg(not(micro_http_verif_small))]
 const MAX_CONNECTIONS: usize = 10;
+#[cfg(micro_http_verif_small)]
+const MAX_CONNECTIONS: usize = 3;
 /// Payload max size
 pub(crate) const MAX_PAYLOAD_SIZE: usize = 51200;
 
@@ -363,6 +366,16 @@ impl HttpServer {
             Err(e) => return Err(ServerError::IOError(e)),
         };
 
+        #[cfg(micro_http_verif)]
+        crate::verif::emit(format!(
+            "{{\"h\":\"batch\",\"ev\":[{}]}}",
+            events[..event_count]
+                .iter()
+                .map(|e| format!("[{},{}]", e.fd(), e.events()))
+                .collect::<Vec<_>>()
+                .join(",")
+        ));
+
         // Getting the file descriptor for kill switch.
         // If there is no kill switch fd, we use value -1 as an invalid fd.
         let kill_fd = self.kill_switch.as_ref().map_or(-1, |ks| ks.as_raw_fd());
@@ -384,6 +397,8 @@ impl HttpServer {
                     // notifying them that we will close the connection, then
                     // we discard it.
                     Err(ServerError::ServerFull) => {
+                        #[cfg(micro_http_verif)]
+                        crate::verif::emit("{\"h\":\"refuse\"}".to_string());
                         self.socket
                             .accept()
                             .map_err(ServerError::IOError)
@@ -459,6 +474,8 @@ impl HttpServer {
         let epoll = &self.epoll;
         self.connections.retain(|rawfd, client_connection| {
             if client_connection.is_done() {
+                #[cfg(micro_http_verif)]
+                crate::verif::emit(format!("{{\"h\":\"remove\",\"fd\":{}}}", rawfd));
                 // The rawfd should have been registered to the epoll fd.
                 Self::epoll_del(epoll, *rawfd).unwrap();
                 false
@@ -609,6 +626,8 @@ impl HttpServer {
             .and_then(|stream| {
                 // Add the stream to the `epoll` structure and listen for bytes to be read.
                 let raw_fd = stream.as_raw_fd();
+                #[cfg(micro_http_verif)]
+                crate::verif::emit(format!("{{\"h\":\"accept\",\"fd\":{}}}", raw_fd));
                 Self::epoll_add(&self.epoll, raw_fd)?;
                 let mut conn = HttpConnection::new(stream);
                 conn.set_payload_max_size(self.payload_max_size);
@@ -624,6 +643,12 @@ impl HttpServer {
     /// # Errors
     /// `IOError` is returned when an `EPOLL_CTL_MOD` control operation fails.
     fn epoll_mod(epoll: &epoll::Epoll, stream_fd: RawFd, evset: epoll::EventSet) -> Result<()> {
+        #[cfg(micro_http_verif)]
+        crate::verif::emit(format!(
+            "{{\"h\":\"mod\",\"fd\":{},\"ev\":{}}}",
+            stream_fd,
+            evset.bits()
+        ));
         let event = epoll::EpollEvent::new(evset, stream_fd as u64);
         epoll
             .ctl(epoll::ControlOperation::Modify, stream_fd, event)
